@@ -24,6 +24,7 @@ V: the driver runs the real fit for each: table rows -> outcome; small vectors -
 """
 import copy
 import json
+from fractions import Fraction
 import math
 import os
 import select
@@ -500,6 +501,62 @@ def zp_key(c):
             f"zeros={c['za']}->{c['zb']} objects={c['objs']}")
 
 
+# ----------------------------------------------------------------------------------
+# one dominating weight: exact rational reference
+
+def exact_regression(xs, p, w, delta):
+    """the weighted least-squares line through (p*, x*) solved EXACTLY (rational arithmetic on the float
+    coordinates); returns log10(alpha), 1/beta as floats"""
+    ps = [Fraction(float(v)) for v in pstar(p, delta)]
+    xst = [Fraction(math.log10(float(v))) for v in xs]
+    wf = [Fraction(float(v)) for v in w]
+    sw = sum(wf)
+    pb = sum(a * b for a, b in zip(wf, ps)) / sw
+    xb = sum(a * b for a, b in zip(wf, xst)) / sw
+    cov = sum(a * (b - pb) * (c - xb) for a, b, c in zip(wf, ps, xst))
+    var = sum(a * (b - pb) ** 2 for a, b in zip(wf, ps))
+    slope = cov / var
+    return float(xb - slope * pb), float(slope)
+
+
+def dominant_inputs(c, seed):
+    rng = np.random.default_rng(zlib.crc32(f"{seed}|dom|{c['dom']}|{c['method']}|{c['rep']}".encode()))
+    x = rng.weibull(2.0, 100)
+    dom = c["dom"]
+    if dom.startswith("w"):
+        eps = float(dom[1:])         # "w1e16" -> 1e16: ratio of the dominating weight to the others
+        w = np.full(len(x), 1.0 / eps)
+        w[int(np.argmax(x))] = 1.0
+        return x, w, w
+    x[int(np.argmax(x))] = float(dom[5:])     # "cubic1e5": one far outlier (a spike left in the data)
+    return x, "cubic", x ** 3
+
+
+def dominant_record(vc, rid, c, seed):
+    x, warg, warr = dominant_inputs(c, seed)
+    fd = float(c["fd"])
+    rec = dict(id=rid, kind="dominant", exc="", pos=True, ab=0)
+    with warnings.catch_warnings():
+        warnings.simplefilter("ignore")
+        try:
+            al, be, de = do_fit(vc, x, c["method"], warg, fd)
+            ok = all(math.isfinite(v) for v in (al, be, de)) and al > 0 and be > 0 and de == fd
+            rec["pos"] = bool(ok)
+            rec["detail"] = f"alpha={al!r} beta={be!r}"
+            if ok:
+                xs, p, wn = prepare(x, warr)
+                a_ref, b_ref = exact_regression(xs, p, wn, de)
+                rec["ab"] = max(qrel((al - 10 ** a_ref) / 10 ** a_ref), qrel((be - 1 / b_ref) * b_ref))
+                rec["detail"] += f" exact alpha={10 ** a_ref!r} beta={1 / b_ref!r}"
+        except Exception as e:  # noqa
+            rec["exc"] = f"{type(e).__name__}: {e}"[:200]
+    return rec
+
+
+def dominant_key(c):
+    return f"dominant weights={c['dom']} delta={c['fd']} method={c['method']} rep={c['rep']}"
+
+
 def law_key(c):
     return (f"law weights={c['wk']} delta={c['fd'] if c['fixed'] else 'free'} method={c['method']} "
             f"class={c['cls']} n={c['n']} rep={c['rep']}")
@@ -659,6 +716,10 @@ def selftest(ctx, law_recs, disc_recs, failing, all_recs=()):
         m(fh, "FreeDeltaHistory", fhist=[dict(fh["fhist"][0], dd=900000)] + fh["fhist"][1:])
         m(fh, "FreeDeltaHistory", fhist=fh["fhist"][:1])
         m(fh, "FreeDeltaHistory", fhist=[dict(fh["fhist"][0], ep=-50000)] + fh["fhist"][1:])
+    dm = next((r for r in all_recs if r.get("kind") == "dominant" and r["id"] not in failing and r["exc"] == ""), None)
+    if dm is not None:
+        m(dm, "NormalEquations", ab=6000000000 // 1000)           # 0.6 % off the exact solution
+        m(dm, "NormalEquations", pos=False)
     zp = next((r for r in all_recs if r.get("kind") == "zeropair" and r["id"] not in failing and r["exc"] == ""), None)
     if zp is not None:
         m(zp, "NormalEquations", ab=170000000)                     # 17 % off the weighted quantile regression
@@ -722,7 +783,8 @@ def run(ctx):
     discrete = [c for c in inputs if c["method"] in ("lsq", "wlsq") and c["wk"] not in ("unknown", "scalar", "badshape")
                 and set(c["fixed"]) <= {"delta"}]
     zpcases = sorted((c for c in lawcases if c.get("kind") == "zeropair"), key=zp_key)
-    lawcases = sorted((c for c in lawcases if c.get("kind") != "zeropair"), key=law_key)
+    domcases = sorted((c for c in lawcases if c.get("kind") == "dominant"), key=dominant_key)
+    lawcases = sorted((c for c in lawcases if c.get("kind") not in ("zeropair", "dominant")), key=law_key)
     bits0 = fresh_fits(lawcases, ctx.seed)      # before the first fit in this process
     procs = max(1, min(12, (os.cpu_count() or 2) - 2))
     zp0 = [r if isinstance(r, list) else [] for r in run_fresh(zp_fresh, [(c, ctx.seed) for c in zpcases], procs)]
@@ -756,6 +818,10 @@ def run(ctx):
         r = zp_record(vc, len(recs) + 1, c, ctx.seed, b0)
         recs.append(r); zp_recs.append(r)
         keys.append(zp_key(c)); nontriv.append(r["exc"] == "" and r["pos"]); replays.append(dict(c))
+    for c in domcases:
+        r = dominant_record(vc, len(recs) + 1, c, ctx.seed)
+        recs.append(r)
+        keys.append(dominant_key(c)); nontriv.append(r["exc"] == ""); replays.append(dict(c))
     # history: the law fits again in the same process, in another seeded order, each preceded by a fixed-delta
     # least-squares fit of another instance on an equally long sample
     order = np.random.default_rng(ctx.seed + 131).permutation(len(lawcases))
@@ -795,6 +861,8 @@ def replay(ctx, case):
     if kind == "table":
         xt = 2.0 * np.random.default_rng(ctx.seed + 13).weibull(1.5, 60)
         r, k = table_record(vc, 1, c, xt), table_key(c)
+    elif kind == "dominant":
+        r, k = dominant_record(vc, 1, c, ctx.seed), dominant_key(c)
     elif kind == "zeropair":
         b0 = run_fresh(zp_fresh, [(c, ctx.seed)], 1)[0]
         r, k = zp_record(vc, 1, c, ctx.seed, b0 if isinstance(b0, list) else []), zp_key(c)
